@@ -191,7 +191,7 @@ def build_cpp(names, log, extra_flags=None):
         key = file_hash(rs + hs + [src]) + hashlib.sha256(" ".join(flags).encode()).hexdigest()[:8]
         d = os.path.join(CACHE, "cpp", n.replace("@", "__"))
         os.makedirs(d, exist_ok=True)
-        exe = os.path.join(d, key[:24])
+        exe = os.path.join(d, key[:24] + key[-8:])   # sources hash + flags hash
         res[n] = exe
         if not os.path.exists(exe):
             todo.append((n, src, exe, flags))
